@@ -127,7 +127,12 @@ def run(case):
     Y0 = field(rng, n, 3, 3, cplx, off=-1.0) + 0.5 * X0.isel(lon=slice(0, 3)).values
     if case["wide_std"]:
         # features whose standard deviations span many orders of magnitude (all far above the 1.2e-7 floor)
-        X0 = X0 * xr.DataArray(10.0 ** rng.uniform(-3, 3, size=(3, 4)), dims=("lat", "lon"), coords={"lat": X0.lat, "lon": X0.lon})
+        # … and, for the whitened cross-set models, a covariance inside the conditioning range the whitening claims (C16: cond(X) <= 1e6;
+        # here cond(X) ~ 1e3); a global factor |c| < 1 must not push the smallest deviation below the floor either
+        lo, hi = (-1.5, 1.5) if two else (-3.0, 3.0)
+        if rel == "global" and abs(case["c"]) < 1:
+            lo = max(lo, -1.0)
+        X0 = X0 * xr.DataArray(10.0 ** rng.uniform(lo, hi, size=(3, 4)), dims=("lat", "lon"), coords={"lat": X0.lat, "lon": X0.lon})
     latname = case["latname"] if rel == "coslat" else "lat"
     st = case["struct"] if not (two and cls.startswith("Hilbert")) else "DA"
     X = structure(X0, st, latname, B=field(rng, n, 3, 4, cplx, off=0.5) * 0.7)
